@@ -6,6 +6,7 @@ package main
 // repetitions harmless. The model is compared on the accounting outcome of each run.
 
 import (
+	"encoding/binary"
 	"encoding/json"
 	"fmt"
 	"math/rand"
@@ -260,8 +261,81 @@ func closeChecks(r *Result) {
 	if h0 != 0 || a0 != 0 {
 		r.violate(Violation{Class: "C17/close-leaves-state", What: fmt.Sprintf("right after Close: %d handles, %d cache entries", h0, a0)})
 	}
+	closeDuringRequest(r)
 	if h1 != 0 || a1 != 0 {
 		r.violate(Violation{Class: "C17/close-with-inflight-handler", What: fmt.Sprintf("a LOOKUP still inside the backend when Close returned put %d handle(s) and %d attribute-cache entr(ies) back afterwards", h1, a1),
 			Ops: []string{"close-with-inflight-handler"}})
+	}
+}
+
+// closeDuringRequest: Close is called while a request sent over an exported TCP connection is still inside the
+// backend; the request completes while Close is stopping the server (well inside its grace period), the client
+// reads its reply and hangs up. When Close returns, nothing may be left: the teardown must release handles and
+// caches after the last request has finished, not before.
+func closeDuringRequest(r *Result) {
+	fs := NewRefFS()
+	f, _ := fs.Create("/slow")
+	f.Close()
+	s, err := newSrv(fs, absnfs.ExportOptions{})
+	must(err)
+	if err := s.NFS.Export("/", 0); err != nil {
+		panic(err)
+	}
+	port := absnfs.VerifExportPort(s.NFS)
+	gate := make(chan struct{})
+	reached := make(chan struct{}, 1)
+	fs.gate = func(call string) {
+		if call == "Lstat /slow" {
+			select {
+			case reached <- struct{}{}:
+				<-gate
+			default:
+			}
+		}
+	}
+	replied := make(chan string, 1)
+	go func() {
+		conn, err := net.DialTimeout("tcp", fmt.Sprintf("127.0.0.1:%d", port), 2*time.Second)
+		if err != nil {
+			replied <- "no-connect"
+			return
+		}
+		defer conn.Close()
+		rep, err := rmCall(conn, 21, progMount, 3, 1, xdrOpaque([]byte("/")))
+		if err != nil || len(rep) < 40 {
+			replied <- "mnt-failed"
+			return
+		}
+		root := binary.BigEndian.Uint64(rep[32:])
+		if _, err := rmCall(conn, 22, progNFS, 3, 3, argDirop(root, "slow")); err != nil {
+			replied <- "lookup: " + err.Error()
+			return
+		}
+		replied <- "ok"
+	}()
+	select {
+	case <-reached:
+	case <-time.After(2 * time.Second):
+		r.Notes = append(r.Notes, "close-during-request: the LOOKUP never reached the backend")
+		close(gate)
+		s.NFS.Close()
+		return
+	}
+	closed := make(chan struct{})
+	go func() { s.NFS.Close(); close(closed) }()
+	time.Sleep(150 * time.Millisecond) // Close is now inside Server.Stop, waiting for the connection
+	close(gate)
+	outcome := <-replied
+	select {
+	case <-closed:
+	case <-time.After(8 * time.Second):
+		r.violate(Violation{Class: "C17/close-hangs", What: "Close did not return within 8 s of the last request finishing", Ops: []string{"close-during-request"}})
+		return
+	}
+	h, a, d := absnfs.VerifHandleCount(s.NFS), absnfs.VerifAttrCacheSize(s.NFS), absnfs.VerifDirCacheSize(s.NFS)
+	r.noteCase("close-during-request", true)
+	r.count("close-during-request:" + outcome)
+	if h != 0 || a != 0 || d != 0 {
+		r.violate(Violation{Class: "C17/close-leaves-state", What: fmt.Sprintf("a request that finished while Close was stopping the server (client outcome %q) left %d handle(s), %d attribute-cache and %d directory-cache entr(ies) behind when Close returned", outcome, h, a, d), Ops: []string{"close-during-request"}})
 	}
 }
